@@ -1,7 +1,10 @@
 package main
 
 import (
+	"bytes"
 	"fmt"
+	"github.com/bnb-chain/tss-lib/v2/common"
+	"math/big"
 	"math/rand"
 	"reflect"
 	"runtime"
@@ -206,7 +209,31 @@ func runConcurrent(rc *runCtx, seed int64, pollers int, noise bool, timeout time
 	return delivered, timedOut
 }
 
+// c09Aliasing: helpers that build a per-peer byte string from a shared one (ssid || j) are called from concurrent goroutines;
+// they must return fresh memory also when the shared slice has spare capacity (as a protobuf-decoded field has)
+func c09Aliasing(r *vc.Run) {
+	for _, spare := range []int{0, 1, 8, 64} {
+		for _, n := range []int{0, 1, 31, 32} {
+			base := make([]byte, n, n+spare)
+			for i := range base {
+				base[i] = byte(0xa0 + i%16)
+			}
+			a := common.AppendBigIntToBytesSlice(base, big.NewInt(1))
+			a1 := append([]byte{}, a...)
+			b := common.AppendBigIntToBytesSlice(base, big.NewInt(2))
+			r.Dist["helper-aliasing"]++
+			r.CountCase(fmt.Sprintf("AppendBigIntToBytesSlice len=%d spare=%d", n, spare), true, fmt.Sprintf("AppendBigIntToBytesSlice(base[len %d, cap %d], 1) then (base, 2)", n, n+spare))
+			wantA := append(append([]byte{}, base...), 1)
+			wantB := append(append([]byte{}, base...), 2)
+			if !bytes.Equal(a, a1) || !bytes.Equal(a1, wantA) || !bytes.Equal(b, wantB) {
+				r.Violate("helper-aliases-input|AppendBigIntToBytesSlice", fmt.Sprintf("AppendBigIntToBytesSlice writes into the spare capacity of its input: the first result changed from %x to %x when a second value was appended to the same base (len %d, cap %d)", a1, a, n, n+spare), fmt.Sprintf("AppendBigIntToBytesSlice on a base slice with len %d cap %d, values 1 then 2", n, n+spare))
+			}
+		}
+	}
+}
+
 func genC09(r *vc.Run) {
+	c09Aliasing(r)
 	r.Rule = "every Start and every UpdateFromBytes in its own goroutine with seeded jitter, plus pollers calling WaitingFor on every party, for the six protocols, built with the Go race detector; per party the set of delivered messages is replayed on the engine model (by the confluence theorem any order gives the same final state): final round and result count must agree; oracles: each party's result exactly once, result predicates of C01-C04, no 'DATA RACE' report, no timeout; non-trivial = all runs"
 	runs := protoRuns(r)
 	reps := r.Pick(4, 30)
